@@ -60,6 +60,7 @@ type updRecord struct {
 	chain   int
 	orig    updater
 	viaJSON updater
+	viaUsed updater // the same JSON decoded into a receiver that held the previous update of its kind
 	origV   reflect.Value
 	jsonV   reflect.Value
 	pre     types.StateElement // copy A before the refresh
@@ -77,6 +78,11 @@ type chainRun struct {
 	lines  []map[string]any
 	recs   map[int]*updRecord // by index into lines
 	jsonrt []jsonCase
+	used   []map[string]any // "used" lines: update k+1 decoded into the variable that held update k
+	auUsed consensus.ApplyUpdate
+	ruUsed consensus.RevertUpdate
+	nAU    int
+	nRU    int
 	stats  map[string]int
 }
 
@@ -174,13 +180,14 @@ func (cr *chainRun) run(nBlocks int) {
 	}
 
 	ciAt := map[uint64][32]byte{}
-	logLine := func(rec *updRecord, t *trk, a, b types.StateElement, panA, panB bool, acc *consensus.ElementAccumulator) {
+	logLine := func(rec *updRecord, t *trk, a, b, u types.StateElement, panA, panB, panU bool, acc *consensus.ElementAccumulator) {
 		va := !panA && acc.VerifContainsLeaf(t.leaf(&a))
 		vb := !panB && acc.VerifContainsLeaf(t.leaf(&b))
-		pa, pb := cr.intern(a.MerkleProof), cr.intern(b.MerkleProof)
+		vu := !panU && acc.VerifContainsLeaf(t.leaf(&u))
+		pa, pb, pu := cr.intern(a.MerkleProof), cr.intern(b.MerkleProof), cr.intern(u.MerkleProof)
 		rec.line = map[string]any{"ev": "upd", "op": rec.op, "h": int(rec.height), "chain": cr.idx, "leaf": fmt.Sprint(a.LeafIndex),
-			"kind": t.kind, "pa": pa, "pb": pb, "va": va, "vb": vb, "panicA": panA, "panicB": panB}
-		if !va || !vb || panA || panB || fmt.Sprint(pa) != fmt.Sprint(pb) {
+			"kind": t.kind, "pa": pa, "pb": pb, "pu": pu, "va": va, "vb": vb, "vu": vu, "panicA": panA, "panicB": panB, "panicU": panU}
+		if !va || !vb || !vu || panA || panB || panU || fmt.Sprint(pa) != fmt.Sprint(pb) || fmt.Sprint(pa) != fmt.Sprint(pu) {
 			rec.acc, rec.snap = acc, *t
 			cr.recs[len(cr.lines)] = rec
 		}
@@ -198,7 +205,7 @@ func (cr *chainRun) run(nBlocks int) {
 			t.a, t.b = a.Copy(), a.Copy()
 			add(t)
 			rec := &updRecord{op: "new", height: height, chain: cr.idx, orig: o, viaJSON: j, origV: auV, jsonV: auJV, pre: a.Copy(), preB: b.Copy()}
-			logLine(rec, t, a, b, false, false, acc)
+			logLine(rec, t, a, b, b, false, false, false, acc) // a new element's proof comes with the update itself
 		}
 		for i, d := range au.SCE {
 			id := [32]byte(d.SiacoinElement.ID)
@@ -290,25 +297,31 @@ func (cr *chainRun) run(nBlocks int) {
 			return
 		}
 		auV, auJV := reflect.ValueOf(au), reflect.ValueOf(auJ)
+		// the same document decoded into the variable that held the previous apply update
+		errU := json.Unmarshal(js, &cr.auUsed)
+		auU := cr.auUsed // the slices of an update are replaced, never written through: a struct copy is a snapshot
+		cr.usedLine("ApplyUpdate", js, reflect.ValueOf(auJ), reflect.ValueOf(auU), errU, cr.nAU)
+		cr.nAU++
 		type res struct {
-			rec        *updRecord
-			t          *trk
-			a, b       types.StateElement
-			panA, panB bool
+			rec              *updRecord
+			t                *trk
+			a, b, u          types.StateElement
+			panA, panB, panU bool
 		}
 		var results []res
 		for _, id := range order {
 			t := tracked[id]
-			rec := &updRecord{op: "apply", height: height, chain: cr.idx, orig: au, viaJSON: auJ, origV: auV, jsonV: auJV, pre: t.a.Copy(), preB: t.b.Copy()}
+			rec := &updRecord{op: "apply", height: height, chain: cr.idx, orig: au, viaJSON: auJ, viaUsed: auU, origV: auV, jsonV: auJV, pre: t.a.Copy(), preB: t.b.Copy()}
 			a, panA := refresh(au, t.a)
 			b, panB := refresh(auJ, t.b)
-			results = append(results, res{rec, t, a, b, panA, panB})
+			u, panU := refresh(auU, t.a)
+			results = append(results, res{rec, t, a, b, u, panA, panB, panU})
 		}
 		integrate(accOf(au), accOf(auJ), height, acc, auV, auJV, au, auJ)
 		for _, x := range results {
 			// each (update, element) pair is judged on its own: copy B restarts from the correct proof
 			x.t.a, x.t.b = x.a, x.a.Copy()
-			logLine(x.rec, x.t, x.a, x.b, x.panA, x.panB, acc)
+			logLine(x.rec, x.t, x.a, x.b, x.u, x.panA, x.panB, x.panU, acc)
 		}
 	}
 
@@ -319,6 +332,11 @@ func (cr *chainRun) run(nBlocks int) {
 			return
 		}
 		ruV, ruJV := reflect.ValueOf(ru), reflect.ValueOf(ruJ)
+		// the same document decoded into the variable that held the previous revert update
+		errU := json.Unmarshal(js, &cr.ruUsed)
+		ruU := cr.ruUsed
+		cr.usedLine("RevertUpdate", js, reflect.ValueOf(ruJ), reflect.ValueOf(ruU), errU, cr.nRU)
+		cr.nRU++
 		// status first: what the block created disappears, what it spent is unspent again
 		for _, d := range ru.SiacoinElementDiffs() {
 			id := [32]byte(d.SiacoinElement.ID)
@@ -358,11 +376,12 @@ func (cr *chainRun) run(nBlocks int) {
 				remove(id)
 				continue
 			}
-			rec := &updRecord{op: "revert", height: height, chain: cr.idx, orig: ru, viaJSON: ruJ, origV: ruV, jsonV: ruJV, pre: t.a.Copy(), preB: t.b.Copy()}
+			rec := &updRecord{op: "revert", height: height, chain: cr.idx, orig: ru, viaJSON: ruJ, viaUsed: ruU, origV: ruV, jsonV: ruJV, pre: t.a.Copy(), preB: t.b.Copy()}
 			a, panA := refresh(ru, t.a)
 			b, panB := refresh(ruJ, t.b)
+			u, panU := refresh(ruU, rec.pre)
 			t.a, t.b = a, a.Copy()
-			logLine(rec, t, a, b, panA, panB, prev)
+			logLine(rec, t, a, b, u, panA, panB, panU, prev)
 		}
 	}
 
@@ -373,7 +392,12 @@ func (cr *chainRun) run(nBlocks int) {
 		fc.RenterSignature, fc.HostSignature = sk.SignHash(h), sk.SignHash(h)
 	}
 	applied := 0
-	wantOps := []string{"pay", "sf", "form", "revise", "expire", "proof", "renew", "attest", "revert", "multi-update"}
+	type histEntry struct {
+		prev consensus.State
+		b    types.Block
+	}
+	var hist []histEntry
+	wantOps := []string{"pay", "sf", "form", "revise", "expire", "proof", "renew", "attest", "revert", "multi-update", "reorg-depth-2+"}
 	covered := func() bool {
 		for _, k := range wantOps {
 			if cr.stats[k] == 0 {
@@ -589,13 +613,26 @@ func (cr *chainRun) run(nBlocks int) {
 		applyUpdate(au, child, &next.Elements)
 		cs = next
 		applied++
+		hist = append(hist, histEntry{prev, b})
 		if applied > 2 && r.Intn(4) == 0 {
-			// undo the block; the chain continues from the parent with a different block
-			ru := consensus.RevertBlock(prev, b, consensus.V1BlockSupplement{})
-			revertUpdate(ru, child, &prev.Elements)
-			cs = prev
-			applied--
-			cr.stats["revert"]++
+			// a reorg: undo the last one to three blocks, newest first; the chain continues from
+			// the common parent with different blocks
+			depth := 1 + r.Intn(3)
+			if depth > applied-2 {
+				depth = applied - 2
+			}
+			if depth >= 2 {
+				cr.stats["reorg-depth-2+"]++
+			}
+			for ; depth > 0; depth-- {
+				h := hist[len(hist)-1]
+				hist = hist[:len(hist)-1]
+				ru := consensus.RevertBlock(h.prev, h.b, consensus.V1BlockSupplement{})
+				revertUpdate(ru, h.prev.Index.Height+1, &h.prev.Elements)
+				cs = h.prev
+				applied--
+				cr.stats["revert"]++
+			}
 		}
 	}
 	cr.stats["blocks"] += applied
@@ -610,4 +647,22 @@ func (cr *chainRun) run(nBlocks int) {
 		sort.Strings(missing)
 		c.Infra("vacuity: chain %d never exercised %v", cr.idx, missing)
 	}
+}
+
+// usedLine records the decoding of an update's JSON into a receiver that was used before
+// (seq = how many documents it has held): the result must be the update a fresh receiver
+// yields, field by field (unexported ones too), and must marshal to the same document.
+func (cr *chainRun) usedLine(typ string, js []byte, fresh, used reflect.Value, err error, seq int) {
+	line := map[string]any{"ev": "used", "type": typ, "how": "json", "custom": true, "fok": true, "uok": err == nil,
+		"same": false, "eq": false, "nontrivial": seq > 0, "diff": "", "chain": cr.idx, "seq": seq}
+	if err == nil {
+		var js2 []byte
+		var merr error
+		if pan, _ := vlib.Recover(func() { js2, merr = json.Marshal(used.Interface()) }); !pan && merr == nil {
+			line["same"] = string(js) == string(js2)
+		}
+		d := firstFieldDiff(fresh, used, "")
+		line["eq"], line["diff"] = d == "", stripIndices(d)
+	}
+	cr.used = append(cr.used, line)
 }
